@@ -593,10 +593,17 @@ macro_rules! vw {
 }
 
 const VD1: &[(&str, &str)] = &[("vd1", "a")];
-const VD2: &[(&str, &str)] = &[("vd2", "b"), ("d1", "c")];
+// (an empty instance string, and built through the `From` + `add_dimension` route: both are as
+// legitimate for the wrapper as any other pair)
+const VD2: &[(&str, &str)] = &[("vd2", ""), ("d1", "c")];
 vw!(VDim1, "value:WithDimension", "value:WithDimensions", Sem::Dims { dims: VD1, deny: &[] }, |v, k| k.call(&WithDimension::new(v.clone(), "vd1", "a")));
-vw!(VDim2, "value:WithDimensions<2>", "value:WithDimensions", Sem::Dims { dims: VD2, deny: &[] }, |v, k| k
-    .call(&WithDimensions::<V, 2>::new_with_dimensions(v.clone(), [("vd2", "b"), ("d1", "c")])));
+vw!(VDim2, "value:WithDimensions<2>", "value:WithDimensions", Sem::Dims { dims: VD2, deny: &[] }, |v, k| {
+    let mut w = WithDimensions::<V, 2>::from(v.clone());
+    w.add_dimension("cleared", "x");
+    w.clear_dimensions();
+    w.add_dimension("vd2", "").add_dimension("d1", "c");
+    k.call(&w)
+});
 vw!(VDim0, "value:WithVecDimensions(none)", "value:WithDimensions", Sem::Id, |v, k| k.call(&WithVecDimensions::<V>::from(v.clone())));
 vw!(VHigh, "value:HighStorageResolution", "value:ForceFlag", Sem::Flag(Fl::HighRes), |v, k| k.call(&HighStorageResolution::<V>::from(v.clone())));
 vw!(VNoM, "value:NoMetric", "value:ForceFlag", Sem::Flag(Fl::NoMetric), |v, k| k.call(&NoMetric::<V>::from(v.clone())));
@@ -693,7 +700,7 @@ macro_rules! ew {
 }
 
 const ED1: &[(&str, &str)] = &[("ed1", "p")];
-const ED2: &[(&str, &str)] = &[("ed2", "q"), ("d1", "r")];
+const ED2: &[(&str, &str)] = &[("", "q"), ("d1", "r")];
 const GD1: &[(&str, &str)] = &[("gd1", "s")];
 const GD2: &[(&str, &str)] = &[("gd2", "t"), ("d1", "u")];
 const ID1: &[(&str, &str)] = &[("id1", "w")];
@@ -709,10 +716,12 @@ ew!(EMergeGA, "Merged(entry,globals)", "Merged", Sem::GlobalsAfter, <E> Merged<E
 ew!(ERefGF, "MergedRef(globals,entry)", "MergedRef", Sem::GlobalsFirst, <E> MergedRef<'static, Glob, E>, |e, a| glob_ref().merge_by_ref(a.hold(e)));
 ew!(ERefGA, "MergedRef(entry,globals)", "MergedRef", Sem::GlobalsAfter, <E> MergedRef<'static, E, Glob>, |e, a| a.hold(e).merge_by_ref(glob_ref()));
 ew!(EDim1, "entry:WithDimension", "WithDimensions", Sem::Dims { dims: ED1, deny: &[] }, <E> WithDimensions<E, 1>, |e, a| WithDimension::new(e, "ed1", "p"));
-ew!(EDim2, "entry:WithDimensions<2>", "WithDimensions", Sem::Dims { dims: ED2, deny: &[] }, <E> WithDimensions<E, 2>, |e, a| WithDimensions::<E, 2>::new_with_dimensions(
-    e,
-    [("ed2", "q"), ("d1", "r")]
-));
+ew!(EDim2, "entry:WithDimensions<2>", "WithDimensions", Sem::Dims { dims: ED2, deny: &[] }, <E> WithDimensions<E, 2>, |e, a| {
+    // (an empty class string, through the `From` + `add_dimension` route)
+    let mut w = WithDimensions::<E, 2>::from(e);
+    w.add_dimension("", "q").add_dimension("d1", "r");
+    w
+});
 ew!(EGd, "WithGlobalDimensions", "WithGlobalDimensions", Sem::Dims { dims: GD1, deny: &[] }, <E> WithGlobalDimensions<E, 1>, |e, a| {
     WithGlobalDimensions::<E, 1>::new_with_global_dimensions(e, [("gd1", "s")], HashSet::new())
 });
